@@ -261,6 +261,15 @@ func (c *c18Chain) basketOps(cfg, batch string) {
 	if r == nil || !r.OK {
 		return
 	}
+	if fee == nil {
+		for _, d := range []string{"uregen", "stake", "uatom"} {
+			n2 := fmt.Sprintf("K%d", c.uniq())
+			for len(n2) < 3 {
+				n2 += "x"
+			}
+			c.must(cfg, "create-basket/unneeded-offer-"+d, &baskettypes.MsgCreate{Curator: A[1], Name: n2, CreditTypeAbbrev: "C", AllowedClasses: []string{cls}, DisableAutoRetire: true, Fee: sdk.Coins{*coinP(d, 5)}})
+		}
+	}
 	bd := r.Resps[0].(*baskettypes.MsgCreateResponse).BasketDenom
 	c.must(cfg, "put", &baskettypes.MsgPut{Owner: A[4], BasketDenom: bd, Credits: []*baskettypes.BasketCredit{{BatchDenom: batch, Amount: "12.5"}}})
 	c.must(cfg, "take", &baskettypes.MsgTake{Owner: A[4], BasketDenom: bd, Amount: "2500000", RetireOnTake: false})
@@ -283,6 +292,13 @@ func (c *c18Chain) classOps(cfg string) {
 		}
 	}
 	c.must(cfg, "create-class", &basetypes.MsgCreateClass{Admin: creator, Issuers: []string{creator}, Metadata: "m", CreditTypeAbbrev: "C", Fee: fee})
+	if fee == nil {
+		// no fee is required (unset, or a zero coin): a client that still fills in the optional fee field —
+		// in whatever denom — meets every precondition; nothing may be charged (fee oracle)
+		c.must(cfg, "create-class/unneeded-offer-uregen", &basetypes.MsgCreateClass{Admin: creator, Issuers: []string{creator}, Metadata: "m", CreditTypeAbbrev: "C", Fee: coinP("uregen", 5)})
+		c.must(cfg, "create-class/unneeded-offer-stake", &basetypes.MsgCreateClass{Admin: creator, Issuers: []string{creator}, Metadata: "m", CreditTypeAbbrev: "C", Fee: coinP("stake", 5)})
+		c.must(cfg, "create-class/unneeded-offer-uatom", &basetypes.MsgCreateClass{Admin: creator, Issuers: []string{creator}, Metadata: "m", CreditTypeAbbrev: "C", Fee: coinP("uatom", 5)})
+	}
 	// an offer below the fee / in the wrong denom must be rejected (fee oracle watches the outcome)
 	if fee != nil && fee.Amount.GT(sdk.NewInt(8)) {
 		low := sdk.Coin{Denom: fee.Denom, Amount: fee.Amount.SubRaw(8)}
